@@ -185,8 +185,13 @@ Definition tstep (c : cfg) (d : dstate) (t : thread) : option (dstate * thread) 
   | PutCreate, RPut k hash sz st rnd =>
       let lg := kind_eqb k CAS && negb (c_zstd c) in
       let p := mkPath (lookup_key k hash) (if kind_eqb k CAS && negb lg then sz else 0) rnd lg in
-      Some (set_files (put_file (mkFile p (st_cid st) 0 false sz) (files d)) d,
-            mkThread (t_req t) PutWrite (t_held t) (Some p))
+      (* O_EXCL: the creator retries until the name is new; with a name already in use this thread
+         makes no step (the oracle column [rnd] is the name that was finally created) *)
+      match find_file p (files d) with
+      | Some _ => None
+      | None => Some (set_files (put_file (mkFile p (st_cid st) 0 false sz) (files d)) d,
+                      mkThread (t_req t) PutWrite (t_held t) (Some p))
+      end
   | PutWrite, RPut k hash sz st rnd =>
       (* the bytes go to the file; nothing shared changes except the (private) file *)
       match t_tmp t with
@@ -300,14 +305,17 @@ Definition tstep (c : cfg) (d : dstate) (t : thread) : option (dstate * thread) 
       let p := mkPath (lookup_key k hash) (if kind_eqb k CAS && negb lg then claimed else 0) rnd lg in
       match b with
       | BFound _ full delivered berr cid logical =>
-          Some (set_files (put_file (mkFile p cid 0 false logical) (files d)) d,
-                mkThread (t_req t) (GetCopy claimed) (t_held t) (Some p))
+          match find_file p (files d) with
+          | Some _ => None
+          | None => Some (set_files (put_file (mkFile p cid 0 false logical) (files d)) d,
+                          mkThread (t_req t) (GetCopy claimed) (t_held t) (Some p))
+          end
       | _ => Some (d, finish t (GetErr EInternal))
       end
   | GetCopy claimed, RGet k hash sz off zstd b rnd =>
       match b, t_tmp t with
       | BFound _ full delivered berr cid logical, Some p =>
-          let d1 := set_files (put_file (mkFile p cid delivered ((delivered =? full) && negb berr) logical) (files d)) d in
+          let d1 := set_files (put_file (mkFile p cid delivered false logical) (files d)) d in
           if berr then Some (d1, finish t (GetErr EInternal))
           else Some (d1, goto t (GetCheck claimed))
       | _, _ => Some (d, finish t (GetErr EInternal))
@@ -316,13 +324,15 @@ Definition tstep (c : cfg) (d : dstate) (t : thread) : option (dstate * thread) 
       match b, t_tmp t with
       | BFound _ full delivered berr cid logical, Some p =>
           let raw := negb (kind_eqb k CAS) || negb (c_zstd c) in
-          let f := mkFile p cid delivered ((delivered =? full) && negb berr) logical in
+          (* validated: the file holds exactly the announced bytes (raw) / a complete blob whose
+             header states [claimed] (compressed CAS) *)
+          let f := mkFile p cid delivered true logical in
+          let d1 := set_files (put_file f (files d)) d in
           if raw then
             if negb (delivered =? claimed) then Some (d, finish t (GetErr EInternal))
-            else Some (d, goto t (GetCommit claimed delivered f))
+            else Some (d1, goto t (GetCommit claimed delivered f))
           else
-            (* compressed CAS: the header of the stored file must be complete and state [claimed] *)
-            if (delivered =? full) && (logical =? claimed) then Some (d, goto t (GetCommit claimed delivered f))
+            if (delivered =? full) && (logical =? claimed) then Some (d1, goto t (GetCommit claimed delivered f))
             else Some (d, finish t (GetErr EInternal))
       | _, _ => Some (d, finish t (GetErr EInternal))
       end
